@@ -547,6 +547,10 @@ class Interp:
             f = (lib.cJSON_DetachItemFromObjectCaseSensitive if cs else lib.cJSON_DetachItemFromObject)
             w.expect("DetachItemFromObject(object, NULL)", bool(f(obj.ptr, None)), False)
             return "detach_key(NULL key)"
+        if cs and any(ch.key is None for ch in obj.children):
+            # a case-sensitive search in an object that holds a name-less member (a copy of an object view over array
+            # elements): whether the search stops there or steps over it is not specified - no such call is made
+            return "skip"
         target = self.find_key(obj, kb, cs)
         if delete:
             (lib.cJSON_DeleteItemFromObjectCaseSensitive if cs else lib.cJSON_DeleteItemFromObject)(obj.ptr, karg)
@@ -623,6 +627,8 @@ class Interp:
         if karg is None:
             w.expect(fname + "(object, NULL, item)", f(obj.ptr, None, repl.ptr), 0)
             return "replace_key(NULL key)"
+        if cs and any(ch.key is None for ch in obj.children):
+            return "skip"
         target = self.find_key(obj, kb, cs)
         size = len(obj.children)
         old_key = (repl.key, repl.key_const, repl.key_ptr)
@@ -727,7 +733,8 @@ class Interp:
             if kb is not None:
                 t_cs = self.find_key(cont, kb, True)
                 t_ci = self.find_key(cont, kb, False)
-                w.expect("GetObjectItemCaseSensitive(%r)" % kb, lib.cJSON_GetObjectItemCaseSensitive(cont.ptr, kb), t_cs.ptr if t_cs else None)
+                if not any(ch.key is None for ch in kids):
+                    w.expect("GetObjectItemCaseSensitive(%r)" % kb, lib.cJSON_GetObjectItemCaseSensitive(cont.ptr, kb), t_cs.ptr if t_cs else None)
                 w.expect("GetObjectItem(%r)" % kb, lib.cJSON_GetObjectItem(cont.ptr, kb), t_ci.ptr if t_ci else None)
                 w.expect("HasObjectItem(%r)" % kb, lib.cJSON_HasObjectItem(cont.ptr, kb), 1 if t_ci else 0)
                 if t_ci is not None and t_cs is not t_ci:
